@@ -39,7 +39,10 @@ var xyzSpaces = []xyzSpace{
 		[8]float64{0.64, 0.33, 0.21, 0.71, 0.15, 0.06, 0.3127, 0.3290}},
 	{"prophotorgb", "pub_prophoto", prophotorgb.PrimaryRed, prophotorgb.PrimaryGreen, prophotorgb.PrimaryBlue, prophotorgb.StandardWhitePoint,
 		func(r, g, b float32) ciexyz.Color { return prophotorgb.ColorFromLinear(r, g, b).ToXYZ() },
-		func(c ciexyz.Color) (float32, float32, float32) { x := prophotorgb.ColorFromXYZ(c); return x.R, x.G, x.B },
+		func(c ciexyz.Color) (float32, float32, float32) {
+			x := prophotorgb.ColorFromXYZ(c)
+			return x.R, x.G, x.B
+		},
 		[8]float64{0.7347, 0.2653, 0.1596, 0.8404, 0.0366, 0.0001, 0.3457, 0.3585}},
 	{"displayp3", "pub_p3", displayp3.PrimaryRed, displayp3.PrimaryGreen, displayp3.PrimaryBlue, displayp3.StandardWhitePoint,
 		func(r, g, b float32) ciexyz.Color { return displayp3.ColorFromLinear(r, g, b).ToXYZ() },
